@@ -78,12 +78,14 @@ func c02Wiring(r *core.R, p *c02Pipe, g *goSite) {
 		if !op.u.onlyRole("worker") {
 			continue
 		}
+		restore := m.view.withCalls(op.ctx)
 		switch {
 		case (op.kind == "range" || op.kind == "recv") && op.class == p.in:
 			rngRoots = append(rngRoots, p.localRoot(op.expr, map[types.Object]bool{}))
 		case op.kind == "send" && op.class == p.out:
 			sndRoots = append(sndRoots, p.localRoot(op.expr, map[types.Object]bool{}))
 		}
+		restore()
 	}
 	counter := c02LoopCounter(info, p.spawnLoop)
 	var regs []c02Reg
